@@ -225,3 +225,81 @@ Proof.
     destruct (IH _ _ _ _ _ _ _ _ _ _ _ HS A B (eq_trans C (f_equal (fun x => x ++ lft) HC)) HF2 H1 H2) as (A' & B' & C' & D').
     split; auto. split; auto. split; auto. congruence.
 Qed.
+
+(* ---- blocks *)
+
+Lemma subsidy_bridge : forall h, h < SUBSIDY_HALVING_INTERVAL ->
+  S.subsidy h = subsidy h /\ S.starting_sat h = h * (50 * COIN_VALUE).
+Proof.
+  intros h Hh. unfold S.subsidy, S.starting_sat, subsidy.
+  change SI_HALVING_INTERVAL with SUBSIDY_HALVING_INTERVAL.
+  assert (E' : h / SUBSIDY_HALVING_INTERVAL = 0) by (apply N.div_small; exact Hh).
+  rewrite E'. split; [reflexivity|].
+  assert (A : S.epoch_start 0 = 0) by (vm_compute; reflexivity).
+  assert (B : S.epoch_subsidy 0 = 50 * COIN_VALUE) by (vm_compute; reflexivity).
+  rewrite A, B. lia.
+Qed.
+
+Record BR (h : N) (st : state) (st2 : S.state) : Prop := {
+  br_u : RU (s_utxo st) (S.utxo st2);
+  br_n : RN (s_utxo st) (S.lost st2);
+  br_h : S.height st2 = h
+}.
+
+Lemma index_block_bridge : forall cfg h blk st st' st2 st2',
+  c_sats cfg = true -> BR h st st2 -> block_ok3 blk -> blk <> [] ->
+  index_block cfg h blk st = Ok st' -> S.index_block st2 (map erase_tx blk) = Ok st2' ->
+  BR (h + 1) st' st2'.
+Proof.
+  intros cfg h blk st st' st2 st2' HS [BU BN BH] BO NE H1 H2. subst h. set (h := S.height st2) in *.
+  destruct blk as [|t0 r]; [congruence|]. destruct BO as [[B1 B2] B3].
+  unfold index_block in H1. rewrite HS in H1. unfold S.index_block in H2. cbn [map] in H2. fold h in H2.
+  dbind H1. rename a into cb. dbind H1. rename a into b1. dbind H1. rename a into b2. inv H1. cbn [tl] in *.
+  dbind H2. destruct a as [[[m1 cbin] w1] d1]. dbind H2. destruct a as [[ents lostr] w2].
+  destruct (S.put_outputs (S.txid (erase_tx t0)) 0 ents m1 []) as [m2 d2] eqn:EP.
+  destruct (S.lost_writes lostr (S.lost_sats st2)) as [w3 ls]. inv H2.
+  (* the coinbase input ranges agree *)
+  assert (Hcb : cb = if 0 <? S.subsidy h then [(S.starting_sat h, S.starting_sat h + S.subsidy h)] else []).
+  { destruct (0 <? subsidy h) eqn:Q.
+    - unfold starting_sat in E. destruct (N.ltb_spec h SUBSIDY_HALVING_INTERVAL) as [Hh|Hh]; [|discriminate]. cbn [bind] in E. inv E.
+      destruct (subsidy_bridge h Hh) as [-> ->]. rewrite Q. reflexivity.
+    - inv E. destruct (N.ltb_spec h SUBSIDY_HALVING_INTERVAL) as [Hh|Hh].
+      + destruct (subsidy_bridge h Hh) as [-> _]. rewrite Q. reflexivity.
+      + (* beyond the first halving our model only continues when the subsidy is 0 *)
+        assert (Z : subsidy h = 0) by (destruct (N.ltb_spec 0 (subsidy h)); [discriminate|lia]).
+        assert (Z2 : S.subsidy h = 0).
+        { unfold S.subsidy, S.epoch_subsidy, subsidy in *. change SI_HALVING_INTERVAL with SUBSIDY_HALVING_INTERVAL.
+          change SI_FIRST_POST_SUBSIDY with 33. change (SI_INITIAL_SUBSIDY_COINS * SI_COIN_VALUE) with (50 * COIN_VALUE).
+          exact Z. }
+        rewrite Z2. reflexivity. }
+  match type of E0 with index_txs _ _ _ _ ?B = _ => set (b0 := B) in * end.
+  rewrite <- Hcb in E2.
+  assert (HC0 : b_cb_ranges b0 = cb) by (subst b0; reflexivity).
+  destruct (index_txs_bridge cfg h (c_first cfg <=? h) r b0 b1 (S.utxo st2) cb [] [] m1 cbin w1 d1 (S.lost st2) HS BU BN HC0 B3 E0 E2) as (R1 & N1 & C1 & L1).
+  { subst b0. cbn [b_lost_ranges] in L1.
+    (* the coinbase *)
+    rename E3 into EA3.
+    unfold index_tx in E1. rewrite HS in E1. cbn [bind] in E1.
+    destruct (split_sats (t_outs t0) (b_cb_ranges b1)) as [[po left1]| |] eqn:ESp; cbn [bind] in E1; try discriminate E1.
+    rewrite C1 in ESp.
+    destruct (split_sats_eq _ _ _ _ (t_id t0) 0 ESp) as (w' & EA). unfold erase_outs in EA. cbn [erase_tx S.txid S.outs] in EA3, EP. rewrite EA in EA3. inv EA3.
+    set (utxo2 := put_outputs cfg (t_id t0) 0 (t_outs t0) ents (s_utxo (b_st b1))) in *.
+    assert (R2 : RU utxo2 m2).
+    { pose proof (put_outputs_bridge cfg (t_id t0) (t_outs t0) ents 0 (s_utxo (b_st b1)) m1 [] HS (split_sats_length _ _ _ _ ESp) R1) as Q.
+      rewrite EP in Q. exact Q. }
+    assert (N2 : RN utxo2 (S.lost st2)).
+    { unfold RN, entry_at in *. subst utxo2. rewrite put_outputs_tg_other by (cbn; auto). exact N1. }
+    assert (HK : keeps_ranges utxo2 (s_utxo (b_st b2)) /\ b_lost_ranges b2 = b_lost_ranges b1 ++ lostr).
+    { destruct (c_first cfg <=? h).
+      - destruct (index_inscriptions_keeps _ _ _ _ _ _ _ E1) as (K & A & B). cbn [set_st b_st with_utxo s_utxo b_lost_ranges] in K, A. auto.
+      - inv E1. cbn [set_st b_st with_utxo s_utxo b_lost_ranges]. split; [apply keeps_refl|reflexivity]. }
+    destruct HK as [K LR]. rewrite L1 in LR. cbn [app] in LR.
+    split; cbn [s_utxo S.utxo S.lost S.height].
+    - intros op rs Hz Hq. destruct (RU_keeps _ _ _ K R2 op rs Hz Hq) as (u & A & B).
+      destruct (b_lost_ranges b2) as [|p l]; [eauto|]. exists u. split; auto. rewrite tgP_set, pair_eqb_false; auto.
+      intro. subst. apply Hz. reflexivity.
+    - pose proof (RN_keeps _ _ _ K N2) as N3. unfold RN in *. rewrite LR. destruct lostr as [|p l].
+      + rewrite app_nil_r. exact N3.
+      + unfold entry_at at 1. rewrite tgP_set, pair_eqb_refl. cbn [u_ranges]. unfold entry_at in N3. rewrite N3. reflexivity.
+    - reflexivity. }
+Qed.
